@@ -118,6 +118,24 @@ Theorem barrier_bounded_work : forall n progs s sc,
   wf_prog n progs = true -> R n progs s -> sched_ok no_spurious sc -> (moves glob loc tstep s sc <= mu s)%nat.
 Proof. exact bounded_work. Qed.
 
+(* Existence form of termination.  From every reachable state of a well-formed program some
+   schedule of at most mu(s) work-choices, without any spurious wake-up, reaches a state in which
+   nothing can move (whose shape is barrier_deadlock_shape) ... *)
+Theorem barrier_eventually_settles : forall n progs s,
+  wf_prog n progs = true -> R n progs s ->
+  exists sc, sched_ok no_spurious sc /\ (length sc <= mu s)%nat /\
+             R n progs (run glob loc tstep s sc) /\ quiescent glob loc tstep (run glob loc tstep s sc).
+Proof. exact eventually_settles. Qed.
+
+(* ... and for balanced programs (the hypothesis of barrier_generation_completes: without it a
+   participant whose program ends early legitimately blocks the others, ex_quiescent_deadlock)
+   that schedule finishes every thread: every generation completes and every waiter returns. *)
+Theorem barrier_eventually_finishes : forall n progs K s,
+  wf_prog n progs = true -> balanced K progs = true -> R n progs s ->
+  exists sc, sched_ok no_spurious sc /\ (length sc <= mu s)%nat /\
+             all_fin glob loc fin (run glob loc tstep s sc) = true.
+Proof. exact eventually_finishes. Qed.
+
 (* ---------- non-vacuity: the hypotheses are met by concrete programs and reachable states ---------- *)
 (* three participants; thread 1 drops out in generation 2, thread 2 in generation 1 *)
 Definition ex_progs := [[Wait; Wait; Wait]; [Wait; WaitAndDrop]; [WaitAndDrop]].
@@ -169,3 +187,16 @@ Example ex_quiescent_deadlock :
   (exists l1, nth_error (thr s) 1 = Some l1 /\ fin l1 = true /\ dropped l1 = false /\ arr l1 = 1%nat) /\
   (exists l0, nth_error (thr s) 0 = Some l0 /\ arr l0 = 2%nat /\ lgen l0 = generation (gl s)).
 Proof. vm_compute. repeat split; auto; eexists; repeat split. Qed.
+
+(* the hypotheses of barrier_eventually_finishes at a non-trivial state (two sleepers, the last
+   arriver about to notify, two more generations to go), with a witness schedule within the bound *)
+Example ex_eventually_finishes :
+  wf_prog 3 ex_progs = true /\ balanced 3 ex_progs = true /\ R 3 ex_progs ex_state /\
+  all_fin glob loc fin ex_state = false /\ mu ex_state = 26%nat /\
+  let sc := (rep 2 (2,0) ++ rep 8 (0,0) ++ rep 8 (1,0) ++ rep 8 (0,0))%nat in
+  sched_ok no_spurious sc /\ (length sc <= mu ex_state)%nat /\
+  all_fin glob loc fin (run glob loc tstep ex_state sc) = true.
+Proof.
+  split; [vm_compute; reflexivity|]. split; [vm_compute; reflexivity|].
+  split; [exists ex_sched; reflexivity|]. vm_compute. repeat split; auto.
+Qed.
